@@ -65,6 +65,12 @@ Proof. exact coord_children_geometry. Qed.
 Theorem C20_coordinate_up_sample_matches_array_up_sample : forall (h : T ROps) (S : cs ROps),
   same_triangle_set (@c_triangles ROps h (c_up_sample h S)) (up_sample_triangles (@c_triangles ROps h S)).
 Proof. exact c_up_sample_exact. Qed.
+(* the four lattice children of a cell are distinct cells, and a cell of the finer lattice has one parent only *)
+Theorem C20_lattice_children_distinct : forall (down : bool) (c : zpt), NoDup (lattice_children down c).
+Proof. exact lattice_children_distinct. Qed.
+Theorem C20_lattice_child_has_unique_parent : forall (fl : bool) (c1 c2 c' : zpt),
+  In c' (lattice_children (flip_of fl c1) c1) -> In c' (lattice_children (flip_of fl c2) c2) -> c1 = c2.
+Proof. exact lattice_child_unique_parent. Qed.
 Theorem C20_coordinate_count_quadruples : forall (h : T ROps) (S : cs ROps),
   c_len (@c_up_sample ROps h S) = (4 * c_len S)%nat.
 Proof. exact (@c_up_sample_len ROps). Qed.
@@ -187,3 +193,4 @@ Print Assumptions C20_shape_mask_if_reference_point_inside. Print Assumptions C2
 Print Assumptions C20_coordinate_containing_indices. Print Assumptions C20_checker_inside_is_inside.
 Print Assumptions C20_coordinate_vertices_preserved. Print Assumptions C20_checker_children_are_subdivision.
 Print Assumptions C20_checker_neighbours_are_neighbours.
+Print Assumptions C20_lattice_children_distinct. Print Assumptions C20_lattice_child_has_unique_parent.
